@@ -1082,9 +1082,9 @@ class PEval:
                 return Lit(b.data, b.off + a)
             if op == '-' and isinstance(a, Lit) and isinstance(b, int):
                 return Lit(a.data, a.off - b)
-            if op == '-' and isinstance(a, Lit) and isinstance(b, Lit) and a.data is b.data:
+            if op == '-' and isinstance(a, Lit) and isinstance(b, Lit) and (a.data is b.data or a.data == b.data):
                 return a.off - b.off
-            if op in ('<', '>', '<=', '>=') and isinstance(a, Lit) and isinstance(b, Lit) and a.data is b.data:
+            if op in ('<', '>', '<=', '>=') and isinstance(a, Lit) and isinstance(b, Lit) and (a.data is b.data or a.data == b.data):
                 return 1 if {'<': a.off < b.off, '>': a.off > b.off, '<=': a.off <= b.off, '>=': a.off >= b.off}[op] else 0
             raise Undecided('pointer arithmetic form')
         if isinstance(a, tuple) and isinstance(b, tuple) and a and b and a[0] == 'iter' and b[0] == 'iter':
